@@ -42,7 +42,7 @@ LEVEL_NOTE = "Trusted: Python attribute-access hooks (__getattribute__/__setattr
 DESIGN_REF = "DESIGN.md section 3, C20"
 
 PROTOCOL = {"__call__", "evaluate", "on_atoms_changed", "on_cell_changed", "to_dict", "from_dict"}
-RESULTS = [True, 1, "x", [0], False, 0, None, "", []]
+RESULTS = [True, 1, "x", [0], False, 0, None, "", [], np.bool_(True), np.int64(2), np.bool_(False)]
 
 STATE = {}  # id(obj) -> private state of the bare objects (kept outside the objects on purpose)
 
@@ -64,6 +64,13 @@ class BareMove:
     def __setattr__(self, name, value):
         STATE[id(self)]["writes"].append(name)
         object.__setattr__(self, name, value)
+
+    # user components may well define value equality (e.g. dataclasses): all bare moves compare equal,
+    # which must not make the driver treat two distinct objects as one
+    def __eq__(self, other):
+        return type(other) is type(self)
+
+    __hash__ = object.__hash__
 
     def __call__(self, context):
         s = STATE[id(self)]
